@@ -9,6 +9,9 @@ the face" convention):
  (a) sizes n = 2..5 (2..7 thorough): every move of `generate_all_moves(n)` and every in-spec
      (face, depth, amount) through `env.step`, applied to a cube whose 6n² stickers are all distinct
      and to two relabellings (⇒ a fixed, value-independent permutation) — equals the physical move;
+     the same for states of the environment's NATIVE cube dtype (int8 cannot hold 6n² distinct labels for
+     n ≥ 5): ceil(log6 6n²) native cubes coloured with the base-6 digits of the sticker position jointly
+     identify every position, the permutation recovered from their real steps must be the physical move;
      sticker multiset conserved; cw∘ccw = ccw∘cw = id, half = cw², cw⁴ = ccw⁴ = id, half² = id (on
      the permutations *and* on real multi-step runs); **all ordered move pairs** of every size through
      two real steps against the composed reference (state-independence of the second move);
@@ -59,7 +62,7 @@ from mc.runner import run_tasks
 PID = "C17"
 
 REQUIRED = [
-    "moves_checked", "moves_conserving_sticker_multiset", "group_law_layers_checked", "pairs_checked",
+    "moves_checked", "native_dtype_moves_checked", "moves_conserving_sticker_multiset", "group_law_layers_checked", "pairs_checked",
     "four_turn_cycles_checked", "codec_round_trips_checked", "cube_solved_states_seen", "cube_unsolved_states_seen",
     "partially_uniform_unsolved_seen", "crafted_near_solved_checked", "crafted_unsolved_through_step",
     "cube_reset_states_checked", "cube_reset_states_in_bfs_ball", "reset_states_matching_drawn_scramble",
